@@ -96,24 +96,16 @@ def consumeHs (s : Screen) (c : Conn) (fuel : Nat) : Conn × List String :=
       (c', s!"rx {c.id} HS {what} ({n} bytes)" :: out)
   | .serverInit :: rest =>
     -- structural parse first (lengths), then comparison with the real parameters
-    match takeN sz_rfbServerInitMsg c.buf with
-    | none => (c, [])
-    | some (fixed, r1) =>
-      match rd32 (fixed.drop 20) with
-      | none => (c, [])
-      | some (nameLen, _) =>
-        match takeN nameLen r1 with
-        | none => (c, [])
-        | some (name, r2) =>
-          let w := (rd16 fixed).map (·.1) |>.getD 0
-          let h := (rd16 (fixed.drop 2)).map (·.1) |>.getD 0
-          let pf := (fixed.drop 4).take 16
-          let real := w = s.w ∧ h = s.h ∧ canonPf pf = canonPf s.pf ∧ name = s.name.take 127
-          let c1 := { c with buf := r2, expectHs := rest, annW := w, annH := h }
-          let (c', out) := consumeHs s c1 fuel
-          let line := s!"rx {c.id} HS ServerInit {w}x{h} pf={hex pf} name={hex name}"
-          if real then (c', line :: out)
-          else (c', line :: s!"!ORACLE {c.id} ServerInit does not report the real screen: real {s.w}x{s.h} pf={hex s.pf} name={hex (s.name.take 127)}" :: out)
+    match parseServerInit c.buf with
+    | none => (c, [])       -- incomplete so far; complained about at the end of the op
+    | some (si, r2) =>
+      let want := realServerInit s
+      let real := si.w = want.w ∧ si.h = want.h ∧ canonPf si.pf = canonPf want.pf ∧ si.name = want.name
+      let c1 := { c with buf := r2, expectHs := rest, annW := si.w, annH := si.h }
+      let (c', out) := consumeHs s c1 fuel
+      let line := s!"rx {c.id} HS ServerInit {si.w}x{si.h} pf={hex si.pf} name={hex si.name}"
+      if real then (c', line :: out)
+      else (c', line :: s!"!ORACLE {c.id} ServerInit does not report the real screen: real {s.w}x{s.h} pf={hex s.pf} name={hex want.name}" :: out)
 
 /-- handle the messages of the normal phase that sit in the connection's buffer -/
 def consumeNormal (c : Conn) : Conn × List String := Id.run do
@@ -219,8 +211,17 @@ def dstep (s : DState) (toks : List String) : DState × List String :=
     -- rfbNewFramebuffer: `if (screen->cursorX >= width) screen->cursorX = width - 1;`
     let cx : Int := if s.scr.cursorX ≥ (natD w : Int) then (natD w : Int) - 1 else s.scr.cursorX
     let cy : Int := if s.scr.cursorY ≥ (natD h : Int) then (natD h : Int) - 1 else s.scr.cursorY
+    -- rfbScaledScreensNewFramebuffer: every scaled version keeps its reduction (at least 1x1)
+    let (ow, oh) := (s.scr.w, s.scr.h)
+    let rescale := fun (c : Conn) =>
+      match c.scaled with
+      | some (sw, sh) =>
+        if ow = 0 ∨ oh = 0 then c else
+        { c with scaled := some (max 1 (sw * natD w / ow), max 1 (sh * natD h / oh)) }
+      | none => c
     ({ s with scr := { s.scr with w := natD w, h := natD h, sbpp := natD bpp, cursorX := cx, cursorY := cy,
-                                  pf := (unhex? pf).getD [], name := (unhex? name).getD [] } }, [])
+                                  pf := (unhex? pf).getD [], name := (unhex? name).getD [] },
+              conns := s.conns.map rescale }, [])
   | "@hook" :: rest =>
     match parseHook rest with
     | none => (s, ["!EXACT ? unreadable hook line"])
@@ -229,7 +230,7 @@ def dstep (s : DState) (toks : List String) : DState × List String :=
       | none => (s, [])
       | some c =>
         let (c', p) := planUpdate s.scr c o
-        let enc := c.caps.preferred.getD rfbEncodingRaw
+        let enc := c.enc
         let splitting := enc = rfbEncodingCoRRE ∨ enc = rfbEncodingUltra ∨ enc = rfbEncodingZlib ∨
                          enc = rfbEncodingTight ∨ enc = rfbEncodingTightPng
         let warn := if s.scr.maxRects > 0 ∧ ¬ splitting ∧ o.upd.length > s.scr.maxRects then
